@@ -9,7 +9,8 @@ import Saito.Model.Routing
   tx <creator> <tx>                                      → work=<n> vrp=<0|1> valid=<n>
   win <r> <tx>                                           → key=<k> | panic  get_winning_routing_node
   fwr <y> <r1> <r2> <txs>                                → key=<k> | panic  find_winning_router
-  blk <bf> <ts> <pts> <hb> <creator> <rest> <txs> <feetxs> <gtctx>  → acc=<0|1|supply-panic> need=<n> work=<n> valid=<n>
+  blk <bf> <ts> <pts> <hb> <creator> <rest> <vau> <txs> <feetxs> <gtctx>  → acc=<0|1|supply-panic> need=<n> work=<n> valid=<n>
+      <vau>    = validate_against_utxo of the validating node (1: holds block 1; 0: joined mid-chain)
       <feetxs> = "-" or "/"-separated output lists of the block's Fee transactions ("~" = no outputs, else k:a,k:a)
       <gtctx>  = "-" (no golden ticket) or the nine arguments of `fee`
   fee <miner> <prevgt> <avg> <a1> <a2> <b1> <b2> <P> <PP> → outs=k:a,… | outs=- | panic
@@ -148,7 +149,7 @@ def step (fl : Flags) (line : String) : Flags × String :=
     match y.toNat?, r1.toNat?, r2.toNat?, parseTxs ts with
     | some y, some r1, some r2, some txs => (fl, kresStr (findWinningRouter { totalFees := y, txs := txs } r1 r2))
     | _, _, _, _ => (fl, "bad-op")
-  | "blk" :: bf :: ts :: pts :: hb :: c :: rest :: txs :: fees :: gtctx =>
+  | "blk" :: bf :: ts :: pts :: hb :: c :: rest :: vau :: txs :: fees :: gtctx =>
     match u64? bf, u64? ts, u64? pts, u64? hb, c.toNat?, parseTxs txs, parseFeeTxs fees with
     | some bf, some ts, some pts, some hb, some c, some txs, some feeTxs =>
       let b : Blk := { creator := c, txs := txs, feeTxs := feeTxs }
@@ -169,7 +170,7 @@ def step (fl : Flags) (line : String) : Flags × String :=
         | .panic => (fl, "panic")
         | .val need =>
           if Res.val need != workNeededDev native bf.toNat ts.toNat pts.toNat hb.toNat then (fl, "SELF-MISMATCH") else
-          let acc := match blockOutcome fl need b (bit rest) exp with
+          let acc := match blockOutcome fl need b (bit rest) exp (bit vau) with
             | .accepted => "1"
             | .rejected => "0"
             | .supplyPanic => "supply-panic"
